@@ -352,6 +352,15 @@ class GridFlow(WidgetWrap[Pile], WidgetContainerMixin, WidgetContainerListConten
             maxcol = 0
         return maxcol
 
+    def selectable(self) -> bool:
+        """
+        Return True if any cell is selectable.
+
+        The display widget is rebuilt lazily when the GridFlow is next laid out, so it cannot answer for
+        contents that were just changed.
+        """
+        return any(w.selectable() for w, _options in self.contents)
+
     def get_display_widget(self, size: tuple[int] | tuple[()]) -> Divider | Pile:
         """
         Arrange the cells into columns (and possibly a pile) for
